@@ -19,9 +19,10 @@ CHECKS = {
         "group of the idealised figure (exact arithmetic), `inversion` an "
         "improper operation normalising it; all 16 parity cells of __eq__ and "
         "the 4 of __hash__/invert are enumerated and each reachable exit must "
-        "have the orbit-membership form. Together these give the stated "
-        "equivalence/hash/invert laws provided the comparison inside the "
-        "recognised form is what it says.",
+        "have the orbit-membership form; operands of different descriptor "
+        "classes are rejected before the table comparison. Together these "
+        "give the stated equivalence/hash/invert laws provided the comparison "
+        "inside the recognised form is what it says.",
         "Trusted: the position->vertex meaning of each class (docstrings), "
         "Python's ==/in/any/frozenset. Not decided: runtime enumeration of all "
         "720 x parity pairs (another family).",
@@ -51,7 +52,8 @@ CHECKS = {
         "candidates are intersections over all covered neighbours with "
         "correct polarity; stereo / stereo-change / bond-role predicates "
         "compare the mapped items of u with those of v and are registered "
-        "for the right flags.",
+        "for the right flags; the descriptor symmetry tables are the proper "
+        "rotation groups (table theorems of C04).",
         "Not decided: soundness of the pruning as an algorithm; brute-force "
         "agreement on small graphs is another family.",
         "DESIGN.md 3/C02"),
@@ -71,8 +73,11 @@ CHECKS = {
     "C05": (
         "path rules on the explicit-stack search loop, freshness of yields "
         "and candidate sets, side kinds, mirror cross-check, label types",
-        "All syntactic paths through the search loop take exactly one of "
-        "{undo pair, yield + undo pair, update_state + push}; mapping and "
+        "All satisfiable paths through the search loop (guards as "
+        "propositional formulas) take exactly one of {undo pair, yield + undo "
+        "pair, update_state + push}, the first only when feasibility() is "
+        "false, the others only when it holds for the inserted pair; an "
+        "empty matching order yields the empty mapping; mapping and "
         "inverted_mapping are mutated in mirrored adjacent pairs; yields "
         "and candidate sets are fresh; candidate filters have the right "
         "polarity and cover all covered neighbours; every call site passes "
@@ -110,7 +115,8 @@ CHECKS = {
         "colour enters every update; the (reactant, product, TS) axis is "
         "hashed in order; parity -1 is normalised; the bond-stereo "
         "contribution must be computed from real colours on the first trip "
-        "(violated today: known finding F13, E/Z hash collision).",
+        "(violated today: known finding F13, E/Z hash collision); every "
+        "return of the four hash functions hashes the refined colours.",
         "Not decided: collision-freeness as such.",
         "DESIGN.md 3/C16"),
     "C17": (
@@ -135,9 +141,12 @@ CHECKS = {
         "exact arithmetic off the thresholds this proves translation / "
         "rotation invariance and reflection = enantiomer for an unchanged "
         "atom order. Known finding: are_planar is not symmetric in its "
-        "points (F17).",
-        "Not decided: invariance under reordering of the input atoms, "
-        "thresholds, axial / trans-pair heuristics, sign conventions.",
+        "points (F17). The square-planar ring-order table contains all three "
+        "trans pairings; no perception function stores on its arguments or "
+        "is memoised.",
+        "Not decided: invariance under reordering of the input atoms beyond "
+        "these table / symmetry rules, thresholds and ties, axial heuristics, "
+        "sign conventions.",
         "DESIGN.md 3/C07"),
     "C08": (
         "finite decision tables extracted from the AST and enumerated by "
@@ -171,11 +180,17 @@ CHECKS = {
         "Exhaustive at table level (24 SP + 240 TB + 48 + 48 tetrahedral + "
         "2 OH cells): the re-imported descriptor equals the exported one "
         "under the literal permutation groups; labels are chosen by "
-        "descriptor equality; export has no write effect on the graph; "
-        "set_bond_orders indexes dictionaries by the right kind.",
+        "descriptor equality; the E/Z branch is folded for both orientations "
+        "of the RDKit bond and 8 placeholder patterns and composed with the "
+        "importer's reconstruction; a label the exporter writes only for a "
+        "specified parity is optional in the importer; export has no write "
+        "effect on the graph; set_bond_orders indexes dictionaries by the "
+        "right kind. Known finding F42: identifier 0 is written as atom-map "
+        "number 0, which the map-number import rejects.",
         "Trusted: RDKit keeps bond-insertion neighbour order and carries "
-        "tags / labels / atom-map numbers. Not decided: E/Z after bond-order "
-        "regeneration, RDKit's own semantics.",
+        "tags / labels / atom-map numbers, and keeps E/Z stereo of a double "
+        "bond. Not decided: RDKit's own semantics, bond-order regeneration "
+        "as a chemical algorithm.",
         "DESIGN.md 3/C13"),
     "C15": (
         "writer/reader schema agreement (sections per class guard, enum "
@@ -184,7 +199,8 @@ CHECKS = {
         "their guards, every Change member has a written and read bond "
         "section excluded from the plain one, role names agree, both "
         "registries are complete, the payload carries (class, atoms, parity) "
-        "and is restored None-preservingly.",
+        "and is restored None-preservingly; every restored descriptor is "
+        "attached unconditionally.",
         "Trusted: json round-trips lists, ints, None and strings.",
         "DESIGN.md 3/C15"),
     "C18": (
@@ -193,7 +209,8 @@ CHECKS = {
         "The only matrix element stores are adjacent symmetric += 1 pairs "
         "over pairs selected under AC[i, j] == 1; matrices are copies of AC; "
         "returned matrices are AC / BO / best_BO: by induction symmetric, "
-        "integer, >= AC, positive exactly on bonded pairs.",
+        "integer, >= AC, positive exactly on bonded pairs; the connectivity "
+        "matrix handed in is numbered by the atoms view.",
         "The chemical part (octets, valences, order independence) is an "
         "algorithmic search: not decided.",
         "DESIGN.md 3/C18"),
@@ -201,8 +218,10 @@ CHECKS = {
         "writer/reader format agreement + shape rules for connectivity",
         "Header lines = skiprows; one >= 8-decimal format for x, y, z; "
         "comments disabled; at least 1-d result; strict upper triangle; "
-        "symmetric cut-off table; strict <; 1.2 x sum of radii; complete "
-        "radii table; distances from coordinate differences only.",
+        "symmetric cut-off table with a zero diagonal; strict <; 1.2 x sum "
+        "of radii; complete radii table; distances from coordinate "
+        "differences only. The text written by xyz_str is evaluated as a "
+        "template (header lines, one repeated atom line).",
         "Not decided: decimal round trip of floats; permutation "
         "equivariance as a value.",
         "DESIGN.md 3/C20"),
@@ -216,7 +235,9 @@ CHECKS = {
         "atom/bond perform the paired updates that keep the three parallel "
         "containers in step; remove_atom resolved for each class purges "
         "every descriptor-bearing slot under `atom in descriptor.atoms`; "
-        "descriptors are stored under their own centre.",
+        "descriptors are stored under their own centre; the lookup hooks of "
+        "mapping subclasses never store; in-place relabelling renames "
+        "totally (rules of C11).",
         "Not decided: agreement of values with a reference model after a "
         "history (another family). Trusted: transfer functions of "
         "sa/absint.py, frozen mutator list.",
